@@ -242,7 +242,7 @@ def main():
     allprops = "--all-props" in sys.argv
     tests = "--tests" in sys.argv
     setup()
-    resf = f"{VERIF}/tools/sensitivity_results.json"
+    resf = os.environ.get("SENS_RESULTS", f"{VERIF}/tools/sensitivity_results.json")
     results = json.load(open(resf)) if os.path.exists(resf) else {}
     if "--seeded" in sys.argv:
         import glob
